@@ -150,3 +150,48 @@ def finalize (rate : Int → Int) (n total : Int) (alloc : List Int) (appendLoss
   if appendLossless ∧ n > 0 then appendLast rate n total ls else ls
 
 end J2kL
+
+namespace J2kL
+
+/-- a generic `codec.Parameters` object as lossless/codec.go extractBasicLosslessParams sees it: per key the value
+    if present WITH the type the code accepts (a value of another type is ignored by the type assertion, i.e.
+    behaves as absent) -/
+structure GParams where
+  numLevels : Option Int
+  allowMCT : Option Bool
+  rate : Option Int
+  rateLevels : Option (List Int)
+  progressionOrder : Option Int      -- int or uint8 key value
+  numLayers : Option Int
+  targetRatio : Option Frac          -- float64 / float32 / int
+  usePCRDOpt : Option Bool
+  appendLosslessLayer : Option Bool
+deriving Repr, DecidableEq
+
+/-- NewLosslessParameters -/
+def defaultLParams : LParams :=
+  { NumLevels := 5, AllowMCT := true, Rate := 20, RateLevels := defaultRateLevels, ProgressionOrder := 0,
+    NumLayers := 1, TargetRatio := Frac.zero, UsePCRDOpt := false, AppendLosslessLayer := true }
+
+/-! extractBasicLosslessParams, key by key -/
+def g1 (g : GParams) (p : LParams) : LParams :=
+  match g.numLevels with | some n => if 0 ≤ n ∧ n ≤ 6 then { p with NumLevels := n } else p | none => p
+def g2 (g : GParams) (p : LParams) : LParams := match g.allowMCT with | some b => { p with AllowMCT := b } | none => p
+def g3 (g : GParams) (p : LParams) : LParams :=
+  match g.rate with | some r => if r > 0 then { p with Rate := r } else p | none => p
+def g4 (g : GParams) (p : LParams) : LParams :=
+  match g.rateLevels with | some l => if l.length > 0 then { p with RateLevels := l } else p | none => p
+def g5 (g : GParams) (p : LParams) : LParams :=
+  match g.progressionOrder with
+  | some x => if x ≥ 0 then { p with ProgressionOrder := x % 256 } else p     -- uint8(x)
+  | none => p
+def g6 (g : GParams) (p : LParams) : LParams := match g.numLayers with | some n => { p with NumLayers := n } | none => p
+def g7 (g : GParams) (p : LParams) : LParams := match g.targetRatio with | some t => { p with TargetRatio := t } | none => p
+def g8 (g : GParams) (p : LParams) : LParams := match g.usePCRDOpt with | some b => { p with UsePCRDOpt := b } | none => p
+def g9 (g : GParams) (p : LParams) : LParams :=
+  match g.appendLosslessLayer with | some b => { p with AppendLosslessLayer := b } | none => p
+
+/-- extractLosslessParameters for a generic object: defaults, then extractBasicLosslessParams -/
+def extractGeneric (g : GParams) : LParams := g9 g (g8 g (g7 g (g6 g (g5 g (g4 g (g3 g (g2 g (g1 g defaultLParams))))))))
+
+end J2kL
